@@ -34,6 +34,12 @@ func c03Settings() []model.Settings {
 			EnumUnknown: "@ignore",
 		})
 	}
+	// enum detection switched off for single types (after the runs with detection on, so that a
+	// verdict remembered from an earlier converter would show)
+	out = append(out,
+		model.Settings{EnumUnknown: "@ignore", EnumExclude: []string{"example.com/m/r:EA"}},
+		model.Settings{EnumUnknown: "@ignore", ZeroPtr: true, EnumExclude: []string{"example.com/m/p:EA", "example.com/m/q:EA"}},
+	)
 	return out
 }
 
